@@ -99,6 +99,25 @@ Definition spec_chunk_data (h : header) (f : bytes) (k : nat) : option bytes :=
   | _, _ => None
   end.
 
+(** content of entry k as the specification decodes it from the file, needing nothing but
+    the entry itself and, for a zstd entry after the first in a file that carries a
+    dictionary, the decoded dictionary entry *)
+Definition spec_chunk_content (h : header) (f : bytes) (k : nat) : option bytes :=
+  let b := body h f in
+  match h_chunks h, skipn k (h_chunks h) with
+  | c0 :: _, c :: _ =>
+      if negb (is_zstd h) then decode_chunk false None c (stored b c)
+      else match k with
+           | O => decode_chunk true None c (stored b c)
+           | _ => if c_ulen c0 =? 0 then decode_chunk true None c (stored b c)
+                  else match decode_chunk true None c0 (stored b c0) with
+                       | Some d0 => decode_chunk true (Some d0) c (stored b c)
+                       | None => None
+                       end
+           end
+  | _, _ => None
+  end.
+
 (** the complete meaning of a file: verified content *)
 Definition spec_read (h : header) (f : bytes) : option bytes :=
   if spec_verify h f then spec_decode h f else None.
